@@ -12,18 +12,34 @@
 (* (`r`).  The final call verify_complete is combined with a *fault*: the description handed to  *)
 (* the real Serialiser is perturbed at a site chosen by TLC among the recorded uses (extra key,  *)
 (* missing key, list too long / too short, missing key covered by a default registered for the  *)
-(* right / the wrong context type).                                                              *)
+(* right / the wrong context type, a non-list value - truthy or falsy - provided for a target    *)
+(* the program declares as a list), and with the *form* the complete description is given in:    *)
+(* every dictionary already of its final type ("typed"), all plain dicts ("plain": each          *)
+(* set_context_type then has to convert the entry and put it back into its slot of the parent)   *)
+(* or the two fixeddict types exchanged ("swapped").                                             *)
+(* The alphabet is a parameter (OpNames, PrimKinds, ... in the cfg): mc/SerDes.cfg is the        *)
+(* general box, mc/SerDesLists.cfg a reduced alphabet (lists of typed subcontexts) with longer   *)
+(* programs.                                                                                     *)
 (* Python has aliasing (the parent dictionary holds a reference to the child); here the child is *)
 (* written into its parent when entered and again when left, and Assemble gives the root view.   *)
 EXTENDS BitIOOps, TLC, FiniteSets
 
-CONSTANTS MaxLen, MaxDepth
+CONSTANTS MaxLen, MaxDepth,
+          OpNames,        \* calls in the alphabet: subset of {"prim", "declare_list", "enter", "leave", "set_type",
+                          \*                                   "computed", "bbegin", "bend", "align"}
+          PrimKinds,      \* subset of {"bool", "nbits", "uint", "sint"}
+          PrimTargets,    \* subset of {"a", "l"}
+          ListTargets,    \* subset of {"l", "m"}
+          EnterTargets,   \* subset of {"s", "m"}
+          Types,          \* arguments of set_context_type: subset of {"dict", "TA", "TB"}
+          FaultKinds,     \* subset of AllFaultKinds
+          Givens          \* subset of {"typed", "plain", "swapped"}
 
-VARIABLES cur,     \* [typ, m : target -> tagged value, idx : target -> -1 (used) | next list index]
+VARIABLES cur,     \* [typ, ts (set_context_type called here), m : target -> tagged value, idx : target -> -1 (used) | next list index]
           stack,   \* Seq of [ctx, target]
           w, r,    \* writer and reader models (BitIOOps)
           out,     \* outcome of the last call: [err, ...]
-          uses,    \* Seq of [path, t, kind]: every target use, for fault sites
+          uses,    \* Seq of [path, t, kind, islist, ix, typ, ts]: every target use, for fault sites
           pre, inp, hist, obs
 vars == <<cur, stack, w, r, out, uses, pre, inp, hist, obs>>
 
@@ -31,7 +47,7 @@ vars == <<cur, stack, w, r, out, uses, pre, inp, hist, obs>>
 Leaf(kind, v) == [k |-> "v", kind |-> kind, v |-> v]
 ListV(items)  == [k |-> "l", items |-> items]
 CtxV(c)       == [k |-> "c", typ |-> c.typ, m |-> c.m]
-EmptyCtx == [typ |-> "dict", m |-> <<>>, idx |-> <<>>]
+EmptyCtx == [typ |-> "dict", ts |-> FALSE, m |-> <<>>, idx |-> <<>>]
 
 Used == -1
 Has(fn, t) == t \in DOMAIN fn
@@ -58,16 +74,17 @@ PathOf(st) == [i \in 1..Len(st) |-> <<st[i].target, IF st[i].ctx.idx[st[i].targe
 (* ---- alphabet ------------------------------------------------------------------------------------ *)
 Op(op, t, kind, v) == [op |-> op, t |-> t, kind |-> kind, v |-> v]
 PrimVals == [bool |-> {1}, nbits |-> {2}, uint |-> {0, 3}, sint |-> {-1}]
-PrimOps == {Op("prim", t, kd, v) : t \in {"a", "l"}, kd \in {"bool", "nbits", "uint", "sint"}, v \in {0, 1, 2, 3, -1}}
-Ops ==      {o \in PrimOps : o.v \in PrimVals[o.kind]}
-       \cup {Op("declare_list", t, "", 0) : t \in {"l", "m"}}
-       \cup {Op("enter", t, "", 0) : t \in {"s", "m"}}
+PrimOps == {Op("prim", t, kd, v) : t \in PrimTargets, kd \in PrimKinds, v \in {0, 1, 2, 3, -1}}
+AllOps ==   {o \in PrimOps : o.v \in PrimVals[o.kind]}
+       \cup {Op("declare_list", t, "", 0) : t \in ListTargets}
+       \cup {Op("enter", t, "", 0) : t \in EnterTargets}
        \cup {Op("leave", "", "", 0)}
-       \cup {Op("set_type", "", ty, 0) : ty \in {"dict", "TA", "TB"}}
+       \cup {Op("set_type", "", ty, 0) : ty \in Types}
        \cup {Op("computed", "c", "", 7)}
        \cup {Op("bbegin", "", "", n) : n \in {1, 4}}
        \cup {Op("bend", "p", "", v) : v \in {0, 1}}          \* v = the bit the padding is made of
        \cup {Op("align", "q", "", v) : v \in {0, 1}}
+Ops == {o \in AllOps : o.op \in OpNames}
 
 NBITS == 2
 PrimIO(o) == [op |-> IF o.kind = "bool" THEN "bit" ELSE o.kind, n |-> NBITS, v |-> o.v, s |-> <<>>]
@@ -86,7 +103,7 @@ Field(t, leaf, io, kind) ==
   ELSE LET a == WOp(w, io)
            b == ROp(a.w.buf, r, io) IN
        [cur |-> u.c, stack |-> stack, w |-> a.w, r |-> b.r, err |-> a.err,
-        uses |-> Append(uses, [path |-> PathOf(stack), t |-> t, kind |-> kind, islist |-> IsList(t), ix |-> Ix(t)]),
+        uses |-> Append(uses, [path |-> PathOf(stack), t |-> t, kind |-> kind, islist |-> IsList(t), ix |-> Ix(t), typ |-> cur.typ, ts |-> cur.ts]),
         rt |-> a.err # "none" \/ (b.err = "none" /\ b.v = Written(io) /\ b.r.pos = a.w.pos /\ b.r.on = a.w.on /\ b.r.rem = a.w.rem)]
 
 Do(o) ==
@@ -95,20 +112,20 @@ Do(o) ==
          LET u == UseTarget(cur, o.t, Leaf("computed", o.v)) IN
          IF ~u.ok THEN Same("ReusedTargetError")
          ELSE [Same("none") EXCEPT !.cur = u.c,
-                 !.uses = Append(uses, [path |-> PathOf(stack), t |-> o.t, kind |-> "computed", islist |-> FALSE, ix |-> -1])]
+                 !.uses = Append(uses, [path |-> PathOf(stack), t |-> o.t, kind |-> "computed", islist |-> FALSE, ix |-> -1, typ |-> cur.typ, ts |-> cur.ts])]
     [] o.op = "declare_list" ->
          IF Has(cur.idx, o.t) THEN Same("ReusedTargetError")
          ELSE [Same("none") EXCEPT !.cur = [cur EXCEPT !.m = Put(cur.m, o.t, ListV(<<>>)), !.idx = Put(cur.idx, o.t, 0)],
-                 !.uses = Append(uses, [path |-> PathOf(stack), t |-> o.t, kind |-> "list", islist |-> TRUE, ix |-> -1])]
+                 !.uses = Append(uses, [path |-> PathOf(stack), t |-> o.t, kind |-> "list", islist |-> TRUE, ix |-> -1, typ |-> cur.typ, ts |-> cur.ts])]
     [] o.op = "enter" ->
          LET u == UseTarget(cur, o.t, CtxV(EmptyCtx)) IN
          IF ~u.ok THEN Same("ReusedTargetError")
          ELSE [Same("none") EXCEPT !.cur = EmptyCtx, !.stack = Append(stack, [ctx |-> u.c, target |-> o.t]),
-                 !.uses = Append(uses, [path |-> PathOf(stack), t |-> o.t, kind |-> "sub", islist |-> IsList(o.t), ix |-> Ix(o.t)])]
+                 !.uses = Append(uses, [path |-> PathOf(stack), t |-> o.t, kind |-> "sub", islist |-> IsList(o.t), ix |-> Ix(o.t), typ |-> cur.typ, ts |-> cur.ts])]
     [] o.op = "leave" ->
          LET top == stack[Len(stack)] IN
          [Same("none") EXCEPT !.cur = PutChild(top.ctx, top.target, CtxV(cur)), !.stack = SubSeq(stack, 1, Len(stack) - 1)]
-    [] o.op = "set_type" -> [Same("none") EXCEPT !.cur = [cur EXCEPT !.typ = o.kind]]
+    [] o.op = "set_type" -> [Same("none") EXCEPT !.cur = [cur EXCEPT !.typ = o.kind, !.ts = TRUE]]
     [] o.op = "bbegin" ->
          LET a == WOp(w, [op |-> "bbegin", n |-> o.v, v |-> 0, s |-> <<>>])
              b == ROp(w.buf, r, [op |-> "bbegin", n |-> o.v, v |-> 0, s |-> <<>>]) IN
@@ -123,7 +140,7 @@ Do(o) ==
               ELSE LET a == WOp(w1, PadIO(n, o.v))
                        b == ROp(a.w.buf, r1, PadIO(Unused(r.on, r.rem), o.v)) IN
                    [cur |-> u.c, stack |-> stack, w |-> a.w, r |-> b.r, err |-> a.err,
-                    uses |-> Append(uses, [path |-> PathOf(stack), t |-> o.t, kind |-> "pad", islist |-> FALSE, ix |-> -1]),
+                    uses |-> Append(uses, [path |-> PathOf(stack), t |-> o.t, kind |-> "pad", islist |-> FALSE, ix |-> -1, typ |-> cur.typ, ts |-> cur.ts]),
                     rt |-> Unused(r.on, r.rem) = n /\ b.err = "none" /\ b.v = Written(PadIO(n, o.v)) /\ b.r.pos = a.w.pos]
     [] o.op = "align" ->
          LET n == (8 - (w.pos % 8)) % 8 IN Field(o.t, Leaf("bitarray", [i \in 1..n |-> o.v]), PadIO(n, o.v), "pad")
@@ -132,17 +149,44 @@ Do(o) ==
 VerifyOutcome == IF Len(stack) > 0 THEN "UnclosedNestedContextError"
                  ELSE IF w.on THEN "UnclosedBoundedBlockError" ELSE "none"
 
-FaultKinds == {"none", "extra", "missing", "listlong", "listshort", "default", "defaultwrongtype"}
+AllFaultKinds == {"none", "extra", "missing", "listlong", "listshort", "default", "defaultwrongtype", "nonlist"}
+ASSUME FaultKinds \subseteq AllFaultKinds /\ Givens \subseteq {"typed", "plain", "swapped"}
+(* fault "nonlist": the description provides this (abstract) value instead of a list for a target the      *)
+(* program declares as a list; the first four are truthy in Python, the others falsy                       *)
+NonListVals == {"int7", "str1", "tuple1", "dict1",
+                "int0", "false", "none", "str0", "bytes0", "dict0", "tuple0", "float0", "bits0"}
 (* sites a fault may be planted at: an index into `uses` (0 = the root context itself, for "extra") *)
 Eligible(fk, i) ==
   CASE fk = "none"  -> i = 0
     [] fk = "extra" -> (IF i = 0 THEN TRUE ELSE uses[i].kind = "sub")                    \* an unused key in the root / in that subcontext
     [] fk \in {"missing", "default", "defaultwrongtype"} -> i > 0 /\ uses[i].kind \in {"prim", "pad"} /\ ~uses[i].islist
-    [] fk = "listlong"  -> i > 0 /\ uses[i].kind = "list"
+    [] fk \in {"listlong", "nonlist"} -> i > 0 /\ uses[i].kind = "list"
     [] fk = "listshort" -> i > 0 /\ uses[i].kind = "prim" /\ uses[i].islist
                            /\ \A j \in (i + 1)..Len(uses) : ~(uses[j].path = uses[i].path /\ uses[j].t = uses[i].t)   \* last item
 (* the rule of C21 for the serialiser: *)
-MustFail(fk) == fk \in {"extra", "missing", "listlong", "listshort", "defaultwrongtype"}
+MustFail(fk) == fk \in {"extra", "missing", "listlong", "listshort", "defaultwrongtype", "nonlist"}
+(* the exception the code is expected to raise (compared and counted as a spec disagreement only) *)
+ExpErr(fk) == CASE fk \in {"extra", "listlong"} -> "UnusedTargetError"
+                [] fk \in {"missing", "defaultwrongtype"} -> "KeyError"
+                [] fk = "listshort" -> "ListTargetExhaustedError"
+                [] fk = "nonlist" -> "ListTargetContainsNonListError"
+                [] OTHER -> "none"
+
+(* ---- the form the description is given in ---------------------------------------------------- *)
+SwapT(ty) == CASE ty = "TA" -> "TB" [] ty = "TB" -> "TA" [] OTHER -> ty
+GivenTyp(g, ty) == CASE g = "plain" -> "dict" [] g = "swapped" -> SwapT(ty) [] OTHER -> ty
+RECURSIVE GivenTree(_, _)
+GivenTree(tv, g) ==
+  CASE tv.k = "c" -> [k |-> "c", typ |-> GivenTyp(g, tv.typ), m |-> [t \in DOMAIN tv.m |-> GivenTree(tv.m[t], g)]]
+    [] tv.k = "l" -> [k |-> "l", items |-> [j \in 1..Len(tv.items) |-> GivenTree(tv.items[j], g)]]
+    [] OTHER -> tv
+(* the dictionary types of the description (leaf values dropped): part of the abstract state, so that the *)
+(* transitions "verify a description given in another form" exist for every arrangement of typed entries  *)
+RECURSIVE Skel(_)
+Skel(tv) ==
+  CASE tv.k = "c" -> [k |-> tv.typ, ch |-> [t \in {x \in DOMAIN tv.m : tv.m[x].k # "v"} |-> Skel(tv.m[t])]]
+    [] tv.k = "l" -> [k |-> "l", ch |-> [j \in {x \in 1..Len(tv.items) : tv.items[x].k # "v"} |-> Skel(tv.items[j])]]
+    [] OTHER -> [k |-> "v", ch |-> <<>>]
 
 Init == /\ cur = EmptyCtx /\ stack = <<>> /\ w = W0 /\ r = R0
         /\ out = [err |-> "none", rt |-> TRUE] /\ uses = <<>>
@@ -151,34 +195,46 @@ Init == /\ cur = EmptyCtx /\ stack = <<>> /\ w = W0 /\ r = R0
 
 Abstract == [typ |-> cur.typ, idx |-> cur.idx,
              st |-> [i \in 1..Len(stack) |-> [typ |-> stack[i].ctx.typ, idx |-> stack[i].ctx.idx, t |-> stack[i].target]],
-             ph |-> w.pos % 8, on |-> w.on, rem |-> w.rem]
+             ph |-> w.pos % 8, on |-> w.on, rem |-> w.rem, sk |-> Skel(obs.tree)]
 
 Live == Len(hist) < MaxLen /\ out.err = "none" /\ inp.op # "verify"
 
+(* NB: the results are bound with \E x \in {...}, not LET: TLC re-evaluates a LET definition at every *)
+(* use inside an action (no caching there), which made this model 5 times slower.                      *)
 Call(o) ==
   /\ Live
   /\ o.op = "leave" => Len(stack) > 0
   /\ o.op = "enter" => Len(stack) < MaxDepth
-  /\ LET d == Do(o) IN
+  /\ \E d \in {Do(o)} :
      /\ cur' = d.cur /\ stack' = d.stack /\ w' = d.w /\ r' = d.r /\ uses' = d.uses
      /\ out' = [err |-> d.err, rt |-> d.rt]
      /\ hist' = Append(hist, [o |-> o, err |-> d.err, pos |-> d.w.pos, depth |-> Len(d.stack), typ |-> d.cur.typ])
      /\ obs' = [tree |-> Assemble(d.cur, d.stack), bits |-> d.w.buf]
   /\ pre' = Abstract /\ inp' = o
 
-Verify(fk, i) ==
-  /\ Live /\ Len(hist) > 0
-  /\ i \in 0..Len(uses) /\ Eligible(fk, i)
-  /\ fk # "none" => VerifyOutcome = "none"          \* faults are planted into complete round-trip programs
-  /\ LET v == VerifyOutcome
-         site == IF i = 0 THEN [path |-> <<>>, t |-> "", kind |-> "root", islist |-> FALSE, ix |-> -1]
-                 ELSE IF fk = "extra" THEN [uses[i] EXCEPT !.path = Append(uses[i].path, <<uses[i].t, uses[i].ix>>)]
-                 ELSE uses[i] IN
+(* the description at a path of <<target, list index or -1>> pairs *)
+RECURSIVE Walk(_, _, _)
+Walk(tv, path, k) == IF k > Len(path) THEN tv
+                     ELSE LET x == tv.m[path[k][1]] IN
+                          Walk(IF path[k][2] = -1 THEN x ELSE x.items[path[k][2] + 1], path, k + 1)
+
+(* the context type a default value has to be registered for: type(cur_context) at the time of the use *)
+TypAtUse(u, g) == IF u.ts THEN u.typ ELSE GivenTyp(g, Walk(obs.tree, u.path, 1).typ)
+
+Verify(fk, i, g, nv) ==
+  /\ \E v \in {VerifyOutcome} :
+     \E site \in {IF i = 0 THEN [path |-> <<>>, t |-> "", kind |-> "root", islist |-> FALSE, ix |-> -1, typ |-> "dict", ts |-> FALSE]
+                  ELSE IF fk = "extra" THEN [uses[i] EXCEPT !.path = Append(uses[i].path, <<uses[i].t, uses[i].ix>>)]
+                  ELSE uses[i]} :
+     \E dt \in {IF fk \in {"default", "defaultwrongtype"} THEN TypAtUse(uses[i], g) ELSE "dict"} :
      /\ out' = [err |-> v, rt |-> TRUE]
-     /\ hist' = Append(hist, [o |-> [op |-> "verify", t |-> fk, kind |-> "", v |-> i], err |-> v, pos |-> w.pos,
+     /\ hist' = Append(hist, [o |-> [op |-> "verify", t |-> fk, kind |-> g, v |-> i], err |-> v, pos |-> w.pos,
                               depth |-> Len(stack), typ |-> cur.typ, fault |-> fk, site |-> site,
+                              given |-> g, gtree |-> GivenTree(obs.tree, g), val |-> nv,
+                              deftyp |-> dt, wrongtyp |-> CHOOSE ty \in {"dict", "TA", "TB"} : ty # dt,
+                              experr |-> ExpErr(fk),
                               serfails |-> (v # "none" \/ MustFail(fk))])
-  /\ pre' = Abstract /\ inp' = [op |-> "verify", t |-> fk, kind |-> "", v |-> i]
+  /\ pre' = Abstract /\ inp' = [op |-> "verify", t |-> fk, kind |-> g, v |-> i, nv |-> nv]
   /\ UNCHANGED <<cur, stack, w, r, uses, obs>>
 
 Prim         == \E o \in {x \in Ops : x.op = "prim"} : Call(o)
@@ -190,7 +246,13 @@ Computed     == \E o \in {x \in Ops : x.op = "computed"} : Call(o)
 BoundedBegin == \E o \in {x \in Ops : x.op = "bbegin"} : Call(o)
 BoundedEnd   == \E o \in {x \in Ops : x.op = "bend"} : Call(o)
 ByteAlign    == \E o \in {x \in Ops : x.op = "align"} : Call(o)
-VerifyComplete == \E fk \in FaultKinds, i \in 0..MaxLen : Verify(fk, i)
+(* guards first, cheapest outermost (TLC enumerates the quantifiers in this order) *)
+VerifyComplete ==
+  /\ Live /\ Len(hist) > 0
+  /\ \E g \in {x \in Givens : x = "typed" \/ GivenTree(obs.tree, x) # obs.tree} :    \* another form only if it is another description
+     \E fk \in (IF VerifyOutcome = "none" THEN FaultKinds ELSE FaultKinds \cap {"none"}) :  \* faults are planted into complete round-trip programs
+     \E i \in {x \in 0..Len(uses) : Eligible(fk, x)} :
+     \E nv \in (IF fk = "nonlist" THEN NonListVals ELSE {"-"}) : Verify(fk, i, g, nv)
 
 Next == Prim \/ DeclareList \/ Enter \/ Leave \/ SetType \/ Computed \/ BoundedBegin \/ BoundedEnd \/ ByteAlign \/ VerifyComplete
 Spec == Init /\ [][Next]_vars
@@ -205,10 +267,6 @@ RoundTrip == out.rt
 NoOverwrite == /\ DOMAIN cur.idx = DOMAIN cur.m
                /\ \A t \in DOMAIN cur.idx : cur.idx[t] # Used => (cur.m[t].k = "l" /\ Len(cur.m[t].items) = cur.idx[t])
 (* the root view always contains the current context, with its current type, at the cursor path *)
-RECURSIVE Walk(_, _, _)
-Walk(tv, path, k) == IF k > Len(path) THEN tv
-                     ELSE LET x == tv.m[path[k][1]] IN
-                          Walk(IF path[k][2] = -1 THEN x ELSE x.items[path[k][2] + 1], path, k + 1)
 TreeConsistent == LET at == Walk(obs.tree, PathOf(stack), 1) IN
                   inp.op \notin {"init", "verify"} => (at.k = "c" /\ at.typ = cur.typ /\ at.m = cur.m)
 ReaderInStep == out.err = "none" => (r.pos = w.pos /\ r.on = w.on)
